@@ -409,11 +409,15 @@ def run(ctx):
     ctx.rule('C02.LIMIT', lambda: c17.rule_generator_limit(ctx, 'C02.LIMIT'), 1)
     from . import c03 as _c03
     ctx.rule('C02.MEMO', lambda: _c03.rule_memo(ctx, 'C02.MEMO'), 12)
-    ctx.rule('C02.LOGICALFILE', lambda: c04.rule_logical_file(ctx, 'C02'), 2)
+    ctx.rule('C02.LOGICALFILE', lambda: c04.rule_logical_file(ctx, 'C02') + c04.rule_logical_file_stateless(ctx, 'C02'), 5)
     ctx.rule('C02.FSMETA', lambda: c04.rule_file_offsets(ctx, 'C02'), 5)
     ctx.rule('C02.COLLISION', lambda: c01.rule_collision(ctx, 'C02.COLLISION'), 2)
     ctx.rule('C02.LIMIT2', lambda: c17.rule_limit(ctx), 6)
     ctx.rule('C02.SCRUB', lambda: c04.rule_scrub(ctx, 'C02'), 6)
+    c04.run(ctx)
+    ctx.rule('C02.PREFIXSCAN', lambda: c04.rule_storage_prefix(ctx, 'C02'), 2)
+    from . import c03 as _c03all
+    _c03all.run(ctx)
     # a compacted (or half-compacted, or compaction-cancelled) database is still an index: the row-id discipline of the
     # compaction tool (C14) is a necessary condition of exact histories afterwards
     from . import c14
